@@ -77,7 +77,12 @@ class MacroGen:
         if c == 'plain': return [r.choice(['list', '+', 'cons', 'equal'])] + [sub(), sub()] if r.random() < 0.7 else ['list', sub()]
         if c == 'let': return [r.choice(['let', 'let*']), [[r.choice(['a', 'b', 's', 'x']), sub()]], sub()]
         if c == 'cond': return ['cond', [sub(), sub()], [True, sub()]]
-        if c == 'quote': return Q([r.choice(['when', 'inc', '->', 'my-when']), 1, [r.choice(['unless', 'twice']), 2]])
+        if c == 'quote':
+            if r.random() < 0.4:
+                # a quoted (or function-quoted) lambda list is data as well
+                lam = ['lambda', ['p'], [r.choice(['when', 'unless', 'my-when', 'inc', '->']), 'p', [r.choice(['twice', 'k7', 'when']), 1]]]
+                return r.choice([Q(lam), FQ(lam), ['car', Q([lam, 'x'])], ['equal', Q(lam), ['list', Q('lambda'), Q(['p']), Q(lam[2])]]])
+            return Q([r.choice(['when', 'inc', '->', 'my-when']), 1, [r.choice(['unless', 'twice']), 2]])
         if c == 'lambda': return ['funcall', ['lambda', ['p'], ['my-when', 'p', sub()]], sub()]
         if c == 'setq': return ['setq', r.choice(['a', 'b', 'n']), self.num(d - 1)]
         if c == 'dotcode':
